@@ -560,7 +560,7 @@ class Project:
         ldir = os.path.join(directory, "locales")
         ascii_only = bool(self.style.get("ascii_escapes"))
         fmt = self.style.get("format", "json")
-        ext = {"json": ".json", "yaml": ".yaml", "json5": ".json5"}[fmt]
+        ext = self.style.get("ext") or {"json": ".json", "yaml": ".yaml", "json5": ".json5"}[fmt]
 
         def dump(data, path):
             with open(path, "w", encoding="utf-8") as f:
